@@ -187,4 +187,6 @@ pub const TARGETS: &[Target] = &[
     Target { module: "MakeUnmake", file: BOARD, container: Impl("Bitboard"), name: "unmake_castle", what: BITS },
     Target { module: "MakeUnmake", file: BOARD, container: Impl("Bitboard"), name: "make", what: BITS },
     Target { module: "MakeUnmake", file: BOARD, container: Impl("Bitboard"), name: "unmake", what: BITS },
+    // ---- `is_move_legal` = make; is_valid; unmake
+    Target { module: "Legal", file: BOARD, container: Impl("Bitboard"), name: "is_move_legal", what: CHECK },
 ];
